@@ -487,7 +487,7 @@ def all_cases(tier: str):
 def campaign(ctx: core.Ctx, tier: str, shard: int, nshards: int) -> None:
     for i, case in enumerate(all_cases(tier)):
         if i % nshards == shard:
-            ctx.run(case)
+            ctx.run(case, enumerated=True)
 
 
 def finish_kwargs(ctx: core.Ctx, tier: str) -> dict:
